@@ -125,11 +125,18 @@ namespace adept {
 
     int iterations_remaining = max_line_search_iterations_;
 
-    bool is_bound_step = (bound_step_size > 0.0);
+    bool is_bound_step = (bound_step_size >= 0.0);
     bool at_bound = false;
 
     if (grad0 >= 0.0) {
       return MINIMIZER_STATUS_DIRECTION_UPHILL;
+    }
+
+    if (is_bound_step && bound_step_size <= 0.0) {
+      // A state variable is already on its bound and the search
+      // direction points out of the box: no step can be taken, so
+      // report the bound to the caller without moving
+      return MINIMIZER_STATUS_BOUND_REACHED;
     }
 
     // Check initial step size is within bounds
